@@ -178,7 +178,9 @@ fn after_panic_usable() {
         sim::register_entry(0, f0, 16, b0);
         let preventer_first: bool = kani::any();
         if preventer_first {
+            // the very first guard of the process is a preventer: it must hold the lock like any other
             let pv = InjectorPP::prevent();
+            assert!(lock_held() && pv.is_active(), "VERIF[C04]: a live preventer does not hold the process-wide lock (first guard ever taken in the process)");
             sim::S.PANICKING = true;
             drop(pv);
         } else {
